@@ -195,3 +195,33 @@ def zmat(payload):
             r['error'] = exc_info(e)
         out.append(r)
     return dict(results=out)
+
+def nf(payload):
+    out = []
+    for case in payload['cases']:
+        r = dict(id=case['id'])
+        try:
+            rng = random.Random(case['seed'])
+            spec = case['spec']
+            m0 = gen.build(dict(spec, sources=[], loads=[]))
+            n = len(m0.pulses)
+            gnd = [i for i, p in enumerate(m0.pulses) if p.ground.any()]
+            gen.add_sources(rng, spec, n, grounded=gnd)
+            spec['loads'] = []
+            r['spec'] = spec
+            m = gen.build(spec); m.compute()
+            o = facts(m)
+            lam = 299.8 / m.f
+            start = [rng.uniform(-2, 2) * lam, rng.uniform(-2, 2) * lam, rng.uniform(0.3, 2) * lam]
+            inc = [rng.choice([1, -1]) * lam * rng.uniform(0.05, 0.5) for _ in range(3)]
+            nv = [2, 1, 2]
+            pwr = rng.choice([None, 100.0, 10 ** rng.uniform(-2, 3)])
+            m.compute_near_field(start, inc, nv, pwr)
+            o['f'] = hx(m.f); o['cur'] = [hxc(v) for v in m.current]; o['power'] = hx(m.power); o['pwr'] = hx(m.nf_power)
+            o['pts'] = [[hx(v) for v in m.near_field_coord[:, k]] for k in range(m.near_field_coord.shape[1])]
+            o['E'] = [[hxc(v) for v in e] for e in m.e_field]; o['H'] = [[hxc(v) for v in h] for h in m.h_field]
+            r['obs'] = o
+        except Exception as e:
+            r['error'] = exc_info(e)
+        out.append(r)
+    return dict(results=out)
